@@ -331,9 +331,11 @@ func (n *NetWorld) destReply(fs *flowSt, p *Probe, h HopSpec) ([]byte, Tag) {
 			// a time-exceeded sent by the target itself proves arrival for SACK
 			tag.IsDestForm = tag.FromTarget
 			return icmpError(from, local, h.Form, quoteOf(p.Raw, h.Form)), tag
-		case "plain-ack", "plain-ack-empty", "plain-ack-ts":
+		case "plain-ack", "plain-ack-empty", "plain-ack-ts", "plain-ack-half", "plain-ack-odd":
 			// an acknowledgement without SACK blocks, in the encodings a receiver may use: no option at all,
-			// a SACK option holding zero blocks (kind 5, length 2), only the timestamp option
+			// a SACK option holding zero blocks (kind 5, length 2), only the timestamp option; and two that a
+			// middlebox rewriting options leaves behind: a SACK option too short for one block (a lone left
+			// edge naming the probe's own sequence number, or three bytes)
 			tag.Class, tag.Field = "sack-unsupported", kind
 			var opts []byte
 			switch kind {
@@ -341,6 +343,11 @@ func (n *NetWorld) destReply(fs *flowSt, p *Probe, h HopSpec) ([]byte, Tag) {
 				opts = []byte{1, 1, 5, 2}
 			case "plain-ack-ts":
 				opts = []byte{1, 1, 8, 10, 0x01, 0x02, 0x03, 0x05, 0x0a, 0x0b, 0x0c, 0x0d}
+			case "plain-ack-half":
+				opts = []byte{1, 1, 5, 6, 0, 0, 0, 0}
+				binary.BigEndian.PutUint32(opts[4:], p.TCP.Seq)
+			case "plain-ack-odd":
+				opts = []byte{5, 5, byte(p.TCP.Seq >> 24), byte(p.TCP.Seq >> 16), byte(p.TCP.Seq >> 8), 1, 1, 1}
 			}
 			return tcpReply(from, p.DPort, local, p.SPort, fs.srvSeq+1, fs.rcvNxt, TCPAck, opts), tag
 		}
